@@ -13,12 +13,12 @@ CHECKS = {
     "C17": ("model_checking", E1 + " + " + E3,
             "explicit-state enumeration (state x continuation) of snapshot/continue/restore histories on the real DbImpl + exhaustive 24-cell timeline table + preemption-bounded schedule exploration (with global-state-key pruning) of restore || reader || writer || Snapshot()/RootBucket user",
             "Sequential: for every reachable state A of the index scenario (depth 1 quick / 2 thorough) and every continuation transaction: Snapshot, continuation, RestoreSnapshot; the full image equals A apart from the two markers, GetSnapshotId equals the returned id, each restore listener ran once, the first GetTimelineId issues a fresh id exactly once, the restored database answers reads and accepts every operation exactly like A (reference model), StreamToWriter yields an identical copy, and after every top-level call the reload lock is free again (a leaked lock is reported instead of blocking the restore); a subset of cases continues with a second snapshot and two more restores on the same handle (older snapshot, then newer one), each with fresh id, listeners and timeline bookkeeping. Timeline bookkeeping: all 3 modes x marker x stored id x id-function outcome. Schedules: ALL interleavings with <= 2 (thorough: 3) preemptions at reloadLock operations, tracked spawns and in-transaction yield points; every transaction sees the old or the new database in full, the final image is restored or restored+writer, no deadlock, no panic.",
-            "bbolt API calls are atomic (its internal locks are not scheduling points); vsync.RWMutex reproduces Go's writer preference; one restore, one reader, one writer per schedule; every 25th schedule is replayed from its choice sequence and must reproduce itself.",
+            "Scheduling points: DbImpl.reloadLock, bbolt's rwlock/metalock/mmaplock (shimmed through the overlay), tracked spawns, harness yields; between them bbolt calls are atomic. vsync.RWMutex reproduces Go's writer preference; one restore (two in one variant), one reader, one writer per schedule; a thread that blocks in code the scheduler does not control is detached (no hang) and the execution is flagged; every 25th schedule is replayed from its choice sequence and must reproduce itself.",
             "DESIGN.md §4 C17"),
     "C18": ("model_checking", E3,
             "preemption-bounded exhaustive schedule exploration (cooperative scheduler over the real DbImpl/bbolt, state-key pruning) with serial-state oracle; helper pairs under every schedule and pool answer; separate free-running -race pass over all unordered pairs of bodies",
             "ALL schedules with <= 2 (thorough: 3) preemptions of one writer committing two multi-operation transactions (entity, unique index, set index, link buckets) and 1 (thorough: 2) reader(s) that read a marker, two index-backed queries (with in-scan yields through an ExternalSymbol), the unique index, the set index and links inside one View: every reader tuple equals the serial tuple of exactly one committed state and the final image is the serial result. Every unordered pair of package-level helpers (Parse valid/invalid/type-error with every pooled-instance answer, GetSymbol incl. two different elements of one map symbol, IsPublicSymbol/ValidateSymbolsArePublic with a never-seen map element per call, GetPublicSymbols, three error classifiers) returns its sequential result under every explored schedule. Data races: every unordered pair of helper, reader and writer bodies runs free under the race detector (20 repetitions x 3 goroutines x 5 calls) and every body whose answer no writer changes must also return its sequential result there.",
-            "The cooperative scheduler cannot see unsynchronised accesses; that clause rests on the race detector over the enumerated body pairs (a detector, not an enumeration of memory orderings). bbolt API calls are atomic.",
+            "The cooperative scheduler cannot see unsynchronised accesses; that clause rests on the race detector over the enumerated body pairs (a detector, not an enumeration of memory orderings). Scheduling points as in C17.",
             "DESIGN.md §4 C18"),
     "C07": ("fault_enumeration", E1,
             "enumeration of (base state x transaction body x failure kind x failure position x route) on the real Db.Update/Batch path with storage-write fault points in bbolt and joined goroutines",
@@ -143,7 +143,7 @@ def main():
         "setup_cmd": "./setup.sh",
         "hooks": {
             "guard": "verif",
-            "enable": "no source hooks in /repo: instrumentation is a go build -overlay generated from the current tree by harness/tools/mkoverlay (sync->vsync shim in boltz/db.go and zitiql/util.go, go statements -> tracked spawn)",
+            "enable": "no source hooks in /repo: instrumentation is a go build -overlay generated from the current tree by harness/tools/mkoverlay (sync->vsync shim in boltz/db.go and zitiql/util.go, go statements -> tracked spawn; in the bbolt module: write fault points in bucket.go, rwlock/metalock/mmaplock of DB -> vsync in db.go)",
             "baseline_off_cmd": "cd /repo && go test -vet=off -count=1 ./...",
             "source_commits": [],
             "add_only": True,
